@@ -8,11 +8,13 @@ class C20(Prop):
     module = 'Cbor.Props.C20'
     theorems = ['Props.C20.C20_hbit', 'Props.C20.C20_hbit_log2', 'Props.C20.C20_mul_sound', 'Props.C20.C20_mul_ok',
                 'Props.C20.C20_mul_complete_half', 'Props.C20.C20_add_exact', 'Props.C20.C20_sadd',
-                'Props.C20.C20_sadd_ok', 'Props.C20.C20_header_size']
+                'Props.C20.C20_sadd_ok', 'Props.C20.C20_header_size', 'Props.C20.C20_alloc_sites_guarded']
     trusted_base = BASE_TRUST + [
         'C20: theorems are over Gen.MemoryUtils/Gen.HeaderSize (regenerated from memory_utils.c / serialization.c); '
         'call sites in container code are covered by the extracted growth guards (see C12) and the heap model']
-    rule = ('operand pairs from the 64-bit boundary grid (2^i + {-2..2}) x same, plus seeded random pairs; '
+    rule = ('end to end: cbor_serialized_size of skeletons whose strings have recorded lengths up to 2^64-1 (maps, arrays, chunked strings, tags; exact-or-0 against Python integers), '
+            'definite arrays / maps with declared capacity 2^60..2^64-1 through the API and through cbor_load (must be refused, never short-allocated); '
+            'operand pairs from the 64-bit boundary grid (2^i + {-2..2}) x same, plus seeded random pairs; '
             'non-trivial = pair with both operands > 1; distinct by (op, operands, result)')
 
     def pairs(self, tier, rng):
@@ -24,8 +26,59 @@ class C20(Prop):
             ps.append((rng.next() >> k1, rng.next() >> k2))
         return ps
 
+    # ---- end to end: recorded lengths / declared counts near 2^61 .. 2^64 through the public API
+    def skeletons(self, tier, rng):
+        M = U64
+        big = [M - 1, M - 2, M - 9, M - 10, M - 11, M - 20, 2 ** 63, 2 ** 63 - 1, 2 ** 63 + 5, 2 ** 62, 2 ** 61, 2 ** 32, 65536, 5, 0]
+        sk = []
+        for a in big: sk.append(('f', a))
+        for a in big[:11]:
+            for b in big[:11]:
+                if rng.chance(1, 2) or tier == 'thorough':
+                    sk.append(('M', [(('f', a), ('f', b))])); sk.append(('m', [(('u', 1), ('f', a)), (('f', b), ('u', 2))]))
+                    sk.append(('A', [('f', a), ('f', b)])); sk.append(('a', [('f', a), ('u', 7), ('f', b)]))
+                    sk.append(('B', [a, b])); sk.append(('G', 2 ** 40, ('M', [(('f', a), ('G', 1, ('f', b)))])))
+        return sk
+
+    @staticmethod
+    def sk_fmt(t):
+        k = t[0]
+        if k == 'f': return 'f(%d)' % t[1]
+        if k == 'u': return 'u8(%d)' % t[1]
+        if k in 'Aa': return k + '[' + ','.join(C20.sk_fmt(x) for x in t[1]) + ']'
+        if k in 'Mm': return k + '[' + ','.join(C20.sk_fmt(a) + ':' + C20.sk_fmt(b) for a, b in t[1]) + ']'
+        if k == 'B': return 'B[' + ','.join('f(%d)' % n for n in t[1]) + ']'
+        if k == 'G': return 'G(%d,%s)' % (t[1], C20.sk_fmt(t[2]))
+
+    @staticmethod
+    def sk_len(t):
+        """the exact mathematical encoded length (Python integers)"""
+        def hd(v): return 1 if v <= 23 else 2 if v <= 255 else 3 if v <= 65535 else 5 if v < 2 ** 32 else 9
+        k = t[0]
+        if k == 'f': return hd(t[1]) + t[1]
+        if k == 'u': return 1 if t[1] <= 23 else 2
+        if k == 'A': return hd(len(t[1])) + sum(C20.sk_len(x) for x in t[1])
+        if k == 'a': return 2 + sum(C20.sk_len(x) for x in t[1])
+        if k == 'M': return hd(len(t[1])) + sum(C20.sk_len(a) + C20.sk_len(b) for a, b in t[1])
+        if k == 'm': return 2 + sum(C20.sk_len(a) + C20.sk_len(b) for a, b in t[1])
+        if k == 'B': return 2 + sum(hd(n) + n for n in t[1])
+        if k == 'G': return hd(t[1]) + C20.sk_len(t[2])
+
+    def e2e_lines(self, tier, rng):
+        lines = ['SIZES ' + self.sk_fmt(t) for t in self.skeletons(tier, rng)]
+        # definite containers whose declared capacity cannot be allocated: the guard must refuse (NULL), never a short block
+        for n in (2 ** 60, 2 ** 60 + 1, 2 ** 61, 2 ** 62, 2 ** 63, 2 ** 63 + 1, 2 ** 63 + 2, 2 ** 64 - 1):
+            lines += ['HRESET', 'H arr 0 1 %d' % n, 'H drop 0', 'H map 0 1 %d' % n, 'H drop 0']
+        from . import gen, dec
+        for mt in (4, 5):
+            for v in (2 ** 64 - 1, 2 ** 63 + 1, 2 ** 63, 2 ** 61, 2 ** 60):
+                h = gen.head(mt, v, 27)
+                for tail in (b'', b'\x01', b'\x01\x02', b'\x01\x02\x03\x04'):
+                    lines.append('LOAD %s 0 0 %d' % (gen.hexs(h + tail), dec.HUGE))
+        return lines
+
     def corr_lines(self, tier, rng):
-        lines = []
+        lines = self.e2e_lines(tier, core.Rng('C20-e2e'))
         for a, b in self.pairs(tier, rng):
             lines += ['MUL %d %d' % (a, b), 'ADD %d %d' % (a, b), 'SADD %d %d' % (a, b)]
         for v in boundary_u64():
@@ -34,6 +87,8 @@ class C20(Prop):
 
     def nontrivial(self, line, out):
         w = line.split()
+        if w[0] in ('SIZES', 'LOAD', 'H'): return True
+        if w[0] == 'HRESET': return False
         return len(w) == 3 and int(w[1]) > 1 and int(w[2]) > 1 or w[0] in ('HBIT', 'HDR')
 
     def oracle(self, tier, ctx):
@@ -44,14 +99,32 @@ class C20(Prop):
         for a, b in ps: lines += ['MUL %d %d' % (a, b), 'ADD %d %d' % (a, b), 'SADD %d %d' % (a, b)]
         hb = boundary_u64()
         lines += ['HBIT %d' % v for v in hb] + ['HDR %d' % v for v in hb]
+        e2e = self.e2e_lines(tier, core.Rng('C20-e2e'))
+        sks = self.skeletons(tier, core.Rng('C20-e2e'))
+        lines = e2e + lines
         out, rc, err = ctx.run_c(lines)
         fails = []
+        if rc != 0 and any(l.startswith('H') for l in lines):
+            # stateful lines: find the crashing block
+            o2, rc2, e2 = ctx.run_c(e2e)
+            if rc2 != 0:
+                n = len(o2)
+                return [{'input': ' ; '.join(e2e[max(0, n - 4):n + 1]) if e2e[n].startswith('H') else e2e[n], 'expected': 'a result',
+                         'observed': 'implementation aborted / sanitizer report at: ' + e2e[n], 'why': e2[-900:]}]
         if rc != 0:
             i, l, e = core.first_crash_line(ctx.harness, lines)
             return [{'input': l, 'expected': 'a result', 'observed': 'implementation aborted', 'why': e[-800:]}]
+        for t, l, o in zip(sks, e2e, out):
+            exact = self.sk_len(t); exp = exact if exact < U64 else 0
+            if o.strip() != str(exp):
+                fails.append({'input': l, 'expected': '%d (exact total %d)' % (exp, exact), 'observed': o, 'why': 'computed serialized size is neither the exact total nor 0'})
         for l, o in zip(lines, out):
-            w = l.split(); r = o.split()[0]
+            w = l.split(); r = o.split()[0] if o.split() else ''
             ctx.count(l, o); ctx.bump(w[0])
+            if w[0] == 'H' and w[1] in ('arr', 'map') and not o.startswith('NULL'):
+                fails.append({'input': 'HRESET ; ' + l, 'expected': 'NULL (the byte size of the slot array does not fit size_t)', 'observed': o[:200],
+                              'why': 'a container was created although its declared capacity cannot be allocated'})
+            if w[0] in ('H', 'HRESET', 'SIZES', 'LOAD'): continue
             if w[0] == 'MUL':
                 a, b = int(w[1]), int(w[2])
                 if r == '1' and a * b >= U64:
